@@ -171,6 +171,14 @@ class CGenerator:
     def visit_IdentifierType(self, n: c_ast.IdentifierType) -> str:
         return " ".join(n.names)
 
+    def _visit_expr_stmt_part(self, n: c_ast.Node) -> str:
+        """An expression in a position where a comma expression needs no
+        parentheses (a condition, a return value) but a statement expression
+        '({ ... })' keeps its own."""
+        if isinstance(n, c_ast.Compound):
+            return "(" + self.visit(n) + ")"
+        return self.visit(n)
+
     def _visit_expr(self, n: c_ast.Node) -> str:
         match n:
             case c_ast.InitList():
@@ -192,7 +200,7 @@ class CGenerator:
             else self._generate_decl(n)
         )
         if n.bitsize:
-            s += " : " + self.visit(n.bitsize)
+            s += " : " + self._visit_expr(n.bitsize)
         if n.init:
             s += " = " + self._visit_expr(n.init)
         return s
@@ -232,7 +240,7 @@ class CGenerator:
         return self._generate_struct_union_enum(n, name="enum")
 
     def visit_Alignas(self, n: c_ast.Alignas) -> str:
-        return "_Alignas({})".format(self.visit(n.alignment))
+        return "_Alignas({})".format(self._visit_expr(n.alignment))
 
     def visit_Enumerator(self, n: c_ast.Enumerator) -> str:
         if not n.value:
@@ -244,7 +252,7 @@ class CGenerator:
             return "{indent}{name} = {value},\n".format(
                 indent=self._make_indent(),
                 name=n.name,
-                value=self.visit(n.value),
+                value=self._visit_expr(n.value),
             )
 
     def visit_FuncDef(self, n: c_ast.FuncDef) -> str:
@@ -290,7 +298,7 @@ class CGenerator:
     def visit_Return(self, n: c_ast.Return) -> str:
         s = "return"
         if n.expr:
-            s += " " + self.visit(n.expr)
+            s += " " + self._visit_expr_stmt_part(n.expr)
         return s + ";"
 
     def visit_Break(self, n: c_ast.Break) -> str:
@@ -308,7 +316,7 @@ class CGenerator:
     def visit_If(self, n: c_ast.If) -> str:
         s = "if ("
         if n.cond:
-            s += self.visit(n.cond)
+            s += self._visit_expr_stmt_part(n.cond)
         s += ")\n"
         s += self._generate_stmt(n.iftrue, add_indent=True)
         if n.iffalse:
@@ -333,7 +341,7 @@ class CGenerator:
     def visit_While(self, n: c_ast.While) -> str:
         s = "while ("
         if n.cond:
-            s += self.visit(n.cond)
+            s += self._visit_expr_stmt_part(n.cond)
         s += ")\n"
         s += self._generate_stmt(n.stmt, add_indent=True)
         return s
@@ -343,13 +351,13 @@ class CGenerator:
         s += self._generate_stmt(n.stmt, add_indent=True)
         s += self._make_indent() + "while ("
         if n.cond:
-            s += self.visit(n.cond)
+            s += self._visit_expr_stmt_part(n.cond)
         s += ");"
         return s
 
     def visit_StaticAssert(self, n: c_ast.StaticAssert) -> str:
         s = "_Static_assert("
-        s += self.visit(n.cond)
+        s += self._visit_expr(n.cond)
         if n.message:
             s += ","
             s += self.visit(n.message)
@@ -357,12 +365,12 @@ class CGenerator:
         return s
 
     def visit_Switch(self, n: c_ast.Switch) -> str:
-        s = "switch (" + self.visit(n.cond) + ")\n"
+        s = "switch (" + self._visit_expr_stmt_part(n.cond) + ")\n"
         s += self._generate_stmt(n.stmt, add_indent=True)
         return s
 
     def visit_Case(self, n: c_ast.Case) -> str:
-        s = "case " + self.visit(n.expr) + ":\n"
+        s = "case " + self._visit_expr(n.expr) + ":\n"
         for stmt in n.stmts:
             s += self._generate_stmt(stmt, add_indent=True)
         return s
@@ -397,7 +405,7 @@ class CGenerator:
             if isinstance(name, c_ast.ID):
                 s += "." + name.name
             else:
-                s += "[" + self.visit(name) + "]"
+                s += "[" + self._visit_expr(name) + "]"
         s += " = " + self._visit_expr(n.expr)
         return s
 
